@@ -7,6 +7,7 @@ a stale binary can never be run against an edited tree.
 """
 import fcntl
 import hashlib
+import re
 import os
 import shutil
 import subprocess
@@ -57,6 +58,77 @@ def tree_key():
                 h.update(b"\0")
         _tree_key[SRC_ROOT] = h.hexdigest()
     return _tree_key[SRC_ROOT]
+
+
+_ESC = {"n": "\n", "t": "\t", "r": "\r", "0": "\0", "\\": "\\", '"': '"', "'": "'", "a": "\a", "b": "\b",
+        "f": "\f", "v": "\v", "?": "?"}
+
+
+def _decode_literal(body):
+    out = bytearray()
+    i = 0
+    while i < len(body):
+        ch = body[i]
+        if ch != "\\":
+            out += ch.encode("latin-1", "replace")
+            i += 1
+            continue
+        i += 1
+        if i >= len(body):
+            break
+        e = body[i]
+        if e == "x":
+            j = i + 1
+            while j < len(body) and j < i + 3 and body[j] in "0123456789abcdefABCDEF":
+                j += 1
+            if j > i + 1:
+                out.append(int(body[i + 1:j], 16) & 0xff)
+            i = j
+        elif e in "01234567":
+            j = i
+            while j < len(body) and j < i + 3 and body[j] in "01234567":
+                j += 1
+            out.append(int(body[i:j], 8) & 0xff)
+            i = j
+        else:
+            out += _ESC.get(e, e).encode("latin-1", "replace")
+            i += 1
+    return bytes(out)
+
+
+def literals_file():
+    """The string literals of the tree under test (include/, src/), one per line in hex: the values the
+    code mentions are the values it may treat specially. Generators draw from them now and then (a
+    dictionary derived from the target, as fuzzers do). A pure function of the tree."""
+    path = os.path.join(CACHE, "literals-" + tree_key()[:24] + ".txt")
+    if os.path.exists(path):
+        return path
+    lits = []
+    seen = set()
+    rx = re.compile(r'"((?:[^"\\\n]|\\.)*)"')
+    for sub in ("include", "src"):
+        for p in sorted(_walk(os.path.join(SRC_ROOT, sub))):
+            try:
+                text = open(p, encoding="latin-1").read()
+            except OSError:
+                continue
+            for line in text.split("\n"):
+                st = line.lstrip()
+                if st.startswith("#include") or st.startswith("*") or st.startswith("//"):
+                    continue
+                for m in rx.finditer(line):
+                    b = _decode_literal(m.group(1))
+                    if 1 <= len(b) <= 64 and b not in seen:
+                        seen.add(b)
+                        lits.append(b)
+    lits = lits[:600]
+    os.makedirs(CACHE, exist_ok=True)
+    tmp = path + ".%d.tmp" % os.getpid()
+    with open(tmp, "w") as f:
+        for b in lits:
+            f.write(b.hex() + "\n")
+    os.replace(tmp, path)
+    return path
 
 
 def harness_key():
